@@ -175,7 +175,7 @@ fn raw_invocation(trace: &Value) -> Option<CliOut> {
         files.insert("run/script.nbt".into(), (file_lines.join("\n") + "\n").into_bytes());
         args.push("script.nbt".into());
     }
-    let out = run_cli(&args, &files, &[], trace["modules_path"].as_str().unwrap_or(crate::sess::MODULES_DIR));
+    let out = run_cli(&args, &files, &[], &trace["modules_path"].as_str().map(|s| s.to_string()).unwrap_or_else(crate::sess::modules_dir));
     if out.stderr.starts_with("HARNESS:") || out.timed_out {
         None
     } else {
@@ -200,7 +200,7 @@ pub fn exec_trace(trace: &Value, res: &mut ExecResult) -> u64 {
     let fault = &trace["fault"]; // {"where": "file"|"e", "index": k, "stage": ..} or null
     let env_fault = trace["env_fault"].as_str().unwrap_or("");
     let init = trace["init"].as_str();
-    let modules_path = trace["modules_path"].as_str().unwrap_or(crate::sess::MODULES_DIR);
+    let modules_path = trace["modules_path"].as_str().map(|s| s.to_string()).unwrap_or_else(crate::sess::modules_dir);
     let use_config = trace["config"].as_str();
     let last_is_expr = trace["last_is_expr"].as_bool().unwrap_or(false);
 
@@ -261,7 +261,7 @@ pub fn exec_trace(trace: &Value, res: &mut ExecResult) -> u64 {
         full_args.extend(pos);
     }
 
-    let out = run_cli(&full_args, &files, &dirs, modules_path);
+    let out = run_cli(&full_args, &files, &dirs, &modules_path);
     res.bump("cli_invocations");
     res.bump(&format!("channel.{channel}"));
     obs.write_str(&format!("{:?}", out.code));
@@ -477,7 +477,7 @@ pub fn exec_trace(trace: &Value, res: &mut ExecResult) -> u64 {
             files2.insert("run/script.nbt".into(), lines.join("\n").into_bytes());
             args2.push("script.nbt".into());
         }
-        let out2 = run_cli(&args2, &files2, &dirs, modules_path);
+        let out2 = run_cli(&args2, &files2, &dirs, &modules_path);
         res.bump("cli_invocations");
         res.bump("checks.channel_equivalence");
         if out2.code != out.code || out2.stdout != out.stdout || normalise_stderr(&out2.stderr).is_empty() != normalise_stderr(&out.stderr).is_empty() {
@@ -719,7 +719,7 @@ fn gen_trace(w: &mut SessWorker, rng: &mut Rng, res: &mut ExecResult) -> Option<
     let mut env_fault = "";
     let mut init: Option<String> = None;
     let mut config: Option<String> = if rng.chance(0.7) { Some(CONFIG_NEVER_FETCH.to_string()) } else { None };
-    let mut modules_path = crate::sess::MODULES_DIR.to_string();
+    let mut modules_path = crate::sess::modules_dir();
     if !with_fault && rng.chance(0.25) {
         env_fault = *rng.pick(&["missing-file", "dir-as-file", "non-utf8-file", "corrupt-config", "failing-init", "good-init", "modules-path-nowhere"]);
         match env_fault {
